@@ -19,6 +19,7 @@ import (
 
 	"github.com/awalterschulze/gominikanren/gomini"
 	"github.com/awalterschulze/gominikanren/gomini/concato"
+	"github.com/awalterschulze/gominikanren/sexpr/ast"
 )
 
 func init() { register("C05", runC05) }
@@ -103,6 +104,57 @@ func makeLineageTree(k0, sib, depth int, finalized *int64) []*gomini.State {
 		}
 	}
 	return out
+}
+
+// unrelatedStates: variables of unrelated states (two NewState calls, two searches) are different variables although they carry the
+// same name - under the default policy and under the library's own creator for S-expressions, ast.CreateVar, whose placeholders
+// are symbols spelled like the variable's name.  An answer of one search that still contains an unbound variable is a plain term
+// for the next search.  Returns a description of what went wrong, or "".
+func unrelatedStates() string {
+	for _, lib := range []bool{false, true} {
+		mk := func() *gomini.State {
+			if lib {
+				return gomini.NewState(ast.CreateVar)
+			}
+			return gomini.NewState()
+		}
+		sa, va := gomini.NewVar[*ast.SExpr](mk())
+		sa, wa := gomini.NewVar[*ast.SExpr](sa)
+		sb, vb := gomini.NewVar[*ast.SExpr](mk())
+		if va == vb || wa == vb {
+			return fmt.Sprintf("ast.CreateVar=%v: the first variable of a second, unrelated state is the same pointer as a variable of the first state", lib)
+		}
+		if _, isvar := sb.CastVar(va); isvar {
+			return fmt.Sprintf("ast.CreateVar=%v: a variable of one state is classified as a variable by an unrelated state created afterwards", lib)
+		}
+		if _, isvar := sa.CastVar(vb); isvar {
+			return fmt.Sprintf("ast.CreateVar=%v: a variable of a later, unrelated state is classified as a variable by the earlier state", lib)
+		}
+		// run 1 leaves a variable unbound in its answer; run 2 gets that answer as a term and binds its own first variables
+		ctx, cancel := context.WithTimeout(context.Background(), 20*time.Second)
+		k, a := ast.NewSymbol("k"), ast.NewSymbol("a")
+		ans1 := gomini.RunTake(ctx, -1, mk(), func(q *ast.SExpr) gomini.Goal {
+			return gomini.ExistO(func(x *ast.SExpr) gomini.Goal { return gomini.EqualO(q, ast.NewList(k, x)) })
+		})
+		if len(ans1) != 1 {
+			cancel()
+			return fmt.Sprintf("ast.CreateVar=%v: q == (k x) has %d answers", lib, len(ans1))
+		}
+		t1, _ := ans1[0].(*ast.SExpr)
+		before := t1.String()
+		ans2 := gomini.RunTake(ctx, -1, mk(), func(q *ast.SExpr) gomini.Goal {
+			return gomini.ExistO(func(y *ast.SExpr) gomini.Goal { return gomini.ConjO(gomini.EqualO(y, a), gomini.EqualO(q, ast.NewList(t1, y))) })
+		})
+		cancel()
+		if len(ans2) != 1 {
+			return fmt.Sprintf("ast.CreateVar=%v: a second search that is handed the answer %s of the first as a term has %d answers, want 1", lib, before, len(ans2))
+		}
+		t2, _ := ans2[0].(*ast.SExpr)
+		if t2 == nil || t2.Pair == nil || t2.Pair.Car.String() != before || t1.String() != before {
+			return fmt.Sprintf("ast.CreateVar=%v: the answer %s of a first search, handed to a second search as a term, came back as %s (answer of the second search: %s)", lib, before, t1.String(), t2.String())
+		}
+	}
+	return ""
 }
 
 // lineageIdentity: two variables created on the SAME state are two variables, each known only to its own lineage, and a binding
@@ -499,6 +551,10 @@ func runC05(cfg *Config) *Report {
 			if bad := lineageIdentity(named, k0%5); bad != "" {
 				rep.violate(i, "variable-identity-across-lineages", desc, fmt.Sprintf("VarCreator=%v, parent with %d variables: %s", named, k0%5, bad))
 			}
+		}
+		// probe 1c': unrelated states and searches
+		if bad := unrelatedStates(); bad != "" {
+			rep.violate(i, "variable-identity-across-unrelated-states", desc, bad)
 		}
 		// probe 1d: the states a search hands on, for programs over every combinator
 		{
